@@ -9,21 +9,51 @@ package mta
 //@ func newMta
 //@   nopanic[C05]
 //@   use bits
-//@   requires senderSecretShare != nil && receiverEncryptedShare != nil && receiverEncryptedShare.c != nil && paillier.skwf(sender) && paillier.pkok(receiver) && paillier.pkvals(receiver) && paillier.pkbig(receiver)
+//@   requires senderSecretShare != nil
+//@   requires receiverEncryptedShare != nil
+//@   requires receiverEncryptedShare.c != nil
+//@   requires paillier.skwf(sender)
+//@   requires paillier.pkok(receiver)
+//@   requires paillier.pkvals(receiver)
+//@   requires paillier.pkbig(receiver)
 //@   modifies nothing
 //@   allocates
 //@   ensures result0 != nil && result0.c != nil && result1 != nil && result1.c != nil && result2 != nil && result3 != nil && result4 != nil && fresh(result4)
 //@ func ProveAffG
 //@   nopanic[C05]
 //@   use bits
-//@   requires group != nil && h != nil && h.h != nil && senderSecretShare != nil && senderSecretSharePoint != nil && receiverEncryptedShare != nil && receiverEncryptedShare.c != nil && paillier.skwf(sender) && paillier.pkok(receiver) && paillier.pkvals(receiver) && paillier.pkbig(receiver) && pedersen.pedok(verifier)
+//@   requires group != nil
+//@   requires h != nil
+//@   requires h.h != nil
+//@   requires senderSecretShare != nil
+//@   requires senderSecretSharePoint != nil
+//@   requires receiverEncryptedShare != nil
+//@   requires receiverEncryptedShare.c != nil
+//@   requires paillier.skwf(sender)
+//@   requires paillier.pkok(receiver)
+//@   requires paillier.pkvals(receiver)
+//@   requires paillier.pkbig(receiver)
+//@   requires pedersen.pedok(verifier)
 //@   modifies hstate(h), wlog(h.h)
 //@   allocates
 //@   ensures result0 != nil && result1 != nil && result2 != nil && result3 != nil
 //@ func ProveAffP
 //@   nopanic[C05]
 //@   use bits
-//@   requires group != nil && h != nil && h.h != nil && senderSecretShare != nil && senderEncryptedShare != nil && senderEncryptedShare.c != nil && senderEncryptedShareNonce != nil && receiverEncryptedShare != nil && receiverEncryptedShare.c != nil && paillier.skwf(sender) && paillier.pkok(receiver) && paillier.pkvals(receiver) && paillier.pkbig(receiver) && pedersen.pedok(verifier)
+//@   requires group != nil
+//@   requires h != nil
+//@   requires h.h != nil
+//@   requires senderSecretShare != nil
+//@   requires senderEncryptedShare != nil
+//@   requires senderEncryptedShare.c != nil
+//@   requires senderEncryptedShareNonce != nil
+//@   requires receiverEncryptedShare != nil
+//@   requires receiverEncryptedShare.c != nil
+//@   requires paillier.skwf(sender)
+//@   requires paillier.pkok(receiver)
+//@   requires paillier.pkvals(receiver)
+//@   requires paillier.pkbig(receiver)
+//@   requires pedersen.pedok(verifier)
 //@   modifies hstate(h), wlog(h.h)
 //@   allocates
 //@   ensures result0 != nil && result1 != nil && result2 != nil && result3 != nil
